@@ -19,7 +19,7 @@ from pathlib import Path
 from .. import gen, sandbox
 from ..repo import asm_canon, index_canon
 from ..runner import digest_of
-from ..sched import Baton, PCTChooser, RandomWalkChooser, ReplayChooser
+from ..sched import Baton, PCTChooser, PhaseChooser, RandomWalkChooser, ReplayChooser
 from ..world import Fault, World, is_mutating_op
 
 ID = "C15"
@@ -60,11 +60,11 @@ def gen_case(rng, tier):
     knobs = {
         "idx_buf": rng.choice(_IDX_BUFS),
         "io_buf": rng.choice(_IO_BUFS),
-        "read_buf": rng.choice([16, 64, 4096]),
+        "read_buf": rng.choice([16, 64, 64, 4096, 4096]),
         "text_chunk": rng.choice(_IO_BUFS),
         "p_tick": rng.choice([0.0, 0.0, 0.2, 1.0]),
         "tick_seed": rng.getrandbits(32),
-        "short_reads": rng.random() < 0.3,
+        "short_reads": rng.random() < 0.2,
     }
     nver = rng.choice([2, 2, 3, 4])
     contents = [gen.gen_fasta(rng)]
@@ -100,19 +100,30 @@ def gen_case(rng, tier):
             })
         else:
             n = rng.choice([2, 2, 3])
-            sched = (
-                {"kind": "pct", "seed": rng.getrandbits(32), "depth": rng.choice([1, 2, 2, 3])}
-                if rng.random() < 0.6
-                else {"kind": "walk", "seed": rng.getrandbits(32), "p": rng.choice([0.05, 0.2, 0.5])}
-            )
+            r2 = rng.random()
             fault = None
-            if rng.random() < 0.4:
-                fault = {
-                    "proc": rng.randrange(n),
-                    "kind": rng.choice(["crash", "crash", "torn_write", "enospc"]),
-                    "at": rng.randrange(0, 50),
-                    "frac": rng.random(),
-                }
+            if r2 < 0.4:
+                # "sandwich": A performs i yield-operations, B performs j, A runs to
+                # completion, an observer C runs completely, then B finishes.  The
+                # first sandwich of a history has j enumerated over every yield
+                # point of an indexing run; i is a sampled fraction of that run.
+                n = 3
+                sched = {"kind": "sandwich", "fi": rng.random(), "i": None,
+                         "j": None if not enumerated else rng.randrange(0, 30)}
+                enumerated = True
+            else:
+                sched = (
+                    {"kind": "pct", "seed": rng.getrandbits(32), "depth": rng.choice([1, 2, 2, 3])}
+                    if r2 < 0.75
+                    else {"kind": "walk", "seed": rng.getrandbits(32), "p": rng.choice([0.05, 0.2, 0.5])}
+                )
+                if rng.random() < 0.4:
+                    fault = {
+                        "proc": rng.randrange(n),
+                        "kind": rng.choice(["crash", "crash", "torn_write", "enospc"]),
+                        "at": rng.randrange(0, 50),
+                        "frac": rng.random(),
+                    }
             hist.append({
                 "op": "RACE", "n": n, "entries": [_entry(rng) for _ in range(n)],
                 "sched": sched, "fault": fault, "dt": dt,
@@ -157,6 +168,9 @@ class Exec:
             tick_rng=random.Random(0),
             p_tick=k["p_tick"],
         )
+        # g.fa is immutable during a step: operations on it commute with
+        # everything, so they are not scheduling points (partial-order reduction)
+        self.world.nonyield_paths = (FA,)
         self.fa = Path(root) / FA
         self.blobs = [gen.render_fasta(c) for c in case["contents"]]
         self.refs = {}
@@ -171,6 +185,7 @@ class Exec:
         self.recovered_first_try = 0
         self.loud_after_fault = 0
         self.samples = []
+        self.sched_sigs = set()
 
     # -- reference -----------------------------------------------------------
     def reference(self, v):
@@ -333,6 +348,8 @@ class Exec:
             if st["op"] == "RACE":
                 if "choices" in b:
                     st["sched"] = {"kind": "replay", "choices": b["choices"]}
+                if "sandwich" in b:
+                    st["sched"] = {"kind": "sandwich", "i": b["sandwich"][0], "j": b["sandwich"][1]}
                 if st.get("fault") and "at" in b:
                     st["fault"]["at"] = b["at"]
         if hist[-1]["op"] != "LOAD" or self.branch.get("probe"):
@@ -505,6 +522,8 @@ class Exec:
         sc = st["sched"]
         if sc["kind"] == "replay":
             chooser = ReplayChooser(sc["choices"])
+        elif sc["kind"] == "sandwich":
+            chooser = PhaseChooser(procs, [(0, sc["i"]), (1, sc["j"]), (0, None), (2, None), (1, None)])
         elif sc["kind"] == "pct":
             chooser = PCTChooser(random.Random(sc["seed"]), [p.pid for p in procs], sc["depth"], 40 * n)
         else:
@@ -513,6 +532,8 @@ class Exec:
         bodies = [(p, self.body(st["entries"][i % len(st["entries"])])) for i, p in enumerate(procs)]
         baton.run(bodies)
         self.branch[step_i] = {"choices": list(baton.decisions)}
+        if sc["kind"] == "sandwich":
+            self.branch[step_i] = {"sandwich": (sc["i"], sc["j"])}
         if fobj is not None:
             self.branch[step_i]["at"] = fault_at
             if fobj.fired:
@@ -528,7 +549,7 @@ class Exec:
             self.check_load(p, step_i, p.fault is not None and p.fault.fired, None, f"race[{n}]")
         w.probe("race_switches", baton.switches)
         sig = tuple((pid, op.split(":")[0], rel.replace(FA, "")) for (pid, _n, op, rel, _b, _t) in w.trace[procs[0].trace_start:])
-        self.classes.add("sched:" + digest_of(sig)[:10])
+        self.sched_sigs.add(digest_of(sig)[:12])
         return procs
 
     def _race_probes(self, procs):
@@ -630,6 +651,11 @@ class Exec:
                 self.do_load(j, st["entry"], fo, "load+" + f["kind"], pid)
                 if fo.fired:
                     self.probe_load(j, "after-" + f["kind"])
+            elif op == "RACE" and st["sched"]["kind"] == "sandwich" and (
+                st["sched"].get("i") is None or st["sched"].get("j") is None
+            ):
+                self._enumerate_sandwich(j, st)
+                return
             elif op == "RACE":
                 f = st.get("fault")
                 if f is not None and self.enumerate_races and f.get("at") is not None and not st.get("_enumerated"):
@@ -669,6 +695,10 @@ class Exec:
         self.evals += 1
         evs = [t for t in w.trace[proc.trace_start:] if t[0] == proc.pid]
         ks = representative_points(f["kind"], evs, n, random.Random(self.knobs["tick_seed"] ^ j))
+        cap = 96 if self.tier == "quick" else 400
+        if len(ks) > cap:
+            ks = sorted(random.Random(self.knobs["tick_seed"] ^ (j + 99)).sample(ks, cap))
+            w.probe("fault_enumeration_sampled")
         w.probe("enumerated_steps")
         w.probe("events_in_enumerated_steps", n)
         w.probe("enumerated_fault_points", len(ks))
@@ -689,6 +719,37 @@ class Exec:
         self.branch[j] = {"at": 10 ** 6}
         self.do_load(j, st["entry"], None, "load", 100 + j * 10)
         self.run_from(j + 1)
+
+    def _enumerate_sandwich(self, j, st):
+        """Learn how many yield-operations an indexing run performs in this
+        state, fix i, and run the sandwich for every j."""
+        w = self.world
+        sc = st["sched"]
+        saved = self._save()
+        self._seed_ticks(j, "learn")
+        proc = w.run_solo(self.body(st["entries"][0]), name="learn", pid=100 + j * 10)
+        self.evals += 1
+        ny = sum(1 for t in w.trace[proc.trace_start:] if t[0] == proc.pid and t[3] not in w.nonyield_paths)
+        i = sc["i"] if sc.get("i") is not None else int(sc.get("fi", 0.5) * (ny + 1))
+        js = [sc["j"]] if sc.get("j") is not None else list(range(ny + 1))
+        cap = 48 if self.tier == "quick" else 160
+        if len(js) > cap:
+            # tiny stdio buffers turn one cache write into hundreds of raw writes:
+            # sample the schedule points instead of enumerating all of them
+            js = sorted(random.Random(self.knobs["tick_seed"] ^ (j + 77)).sample(js, cap))
+            w.probe("sandwich_enumeration_sampled")
+        w.probe("enumerated_sandwich_steps")
+        w.probe("enumerated_sandwich_schedules", len(js))
+        for jj in js:
+            self._load(saved)
+            self._seed_ticks(j, jj)
+            st2 = dict(st)
+            st2["sched"] = {"kind": "sandwich", "i": i, "j": jj}
+            self.do_race(j, st2, None)
+            self.probe_load(j, "after-race")
+            self.run_from(j + 1)
+            if len(self.violations) >= 6:
+                break
 
     def _enumerate_race(self, j, st):
         w = self.world
@@ -755,6 +816,7 @@ def execute_case(case, run_seed, tier, tag=""):
             "evals": ex.evals,
             "violations": ex.violations,
             "discarded": 1 if ex.discard else 0,
+            "sets": {"schedule_signatures": sorted(ex.sched_sigs)},
             "extra": {
                 "recovered_on_first_fault_free_load": ex.recovered_first_try,
                 "loud_failures_after_fault": ex.loud_after_fault,
